@@ -22,7 +22,8 @@ CONSTANTS
   Rots,       \* kind rotations of the other families
   MaxLen,     \* traverse / fmap: list lengths 0..MaxLen; fmapstr: groups 0..MaxLen
   MaxParams,  \* plumb: parameters 2..MaxParams
-  MaxOuter,   \* join: outer length 0..MaxOuter
+  MaxOuter,   \* join: outer length 0..MaxOuter (inner lists: nil / empty / spare capacity shapes)
+  MaxOuterLen, LenRots,  \* join: outer length 0..MaxOuterLen with independent inner lengths 0..3, for these kind rotations
   MaxSeq,     \* mem: length of the call sequences
   MaxSeqDep,  \* mem: length of the call sequences when f re-enters the memoized function
   MemDeps,    \* mem: which dependency functions: "none", "few", "all"
@@ -37,7 +38,11 @@ Kinds == <<"int", "str", "bool", "nint", "st", "ar", "pt", "sl", "mp", "if">>
 NK == Len(Kinds)
 \* rotation rot < 100: consecutive positions get consecutive kinds (mixed types);
 \* rot = 100 + k: every position has kind k+1 (same-typed values: only the tokens tell them apart)
-KindAt(rot, p) == IF rot >= 100 THEN Kinds[rot - 99] ELSE Kinds[((rot + p) % NK) + 1]
+\* rot = 200 + k: rotation over the exotic kinds: tg = anonymous struct whose field tag contains %5d %s %%,
+\* uni = named type with a non-ASCII identifier, fn = func-typed value
+XKinds == <<"tg", "uni", "fn">>
+KindAt(rot, p) == IF rot >= 200 THEN XKinds[((rot - 200 + p) % Len(XKinds)) + 1]
+                  ELSE IF rot >= 100 THEN Kinds[rot - 99] ELSE Kinds[((rot + p) % NK) + 1]
 \* a bool can carry only one non-zero token
 Tok(kind, t) == IF kind = "bool" THEN 1 ELSE t
 Toks(kinds, base) == [j \in DOMAIN kinds |-> Tok(kinds[j], base + j)]
@@ -168,6 +173,10 @@ JoinCfg(shapes, nilin, rot) ==
 JoinCfgs(x) == {JoinCfg(sh, FALSE, rot) : sh \in UNION {[1..n -> InnerShapes] : n \in 0..MaxOuter}, rot \in Rots}
             \cup {JoinCfg(<<>>, TRUE, rot) : rot \in Rots}
 
+\* second universe: outer length up to MaxOuterLen, every inner list independently nil or of length 0..3
+InnerLens == {[nil |-> TRUE, n |-> 0, spare |-> 0]} \cup {[nil |-> FALSE, n |-> k, spare |-> 0] : k \in 0..3}
+JoinLenCfgs(x) == {JoinCfg(sh, FALSE, rot) : sh \in UNION {[1..n -> InnerLens] : n \in 0..MaxOuterLen}, rot \in LenRots}
+
 StrChoices == {<<>>, <<"a">>, <<"e2", "a">>, <<"xff">>, <<"e4">>}
 JoinStrCfg(strs, nilin) ==
   [str |-> TRUE, groups |-> strs, input |-> [nil |-> nilin, ls |-> [i \in DOMAIN strs |-> BytesOf(strs[i])]]]
@@ -177,7 +186,8 @@ JoinStrCfgs(x) == {JoinStrCfg(ss, FALSE) : ss \in UNION {[1..n -> StrChoices] : 
 \* parameter kinds: ==-comparable (int, str, st, ar) and not: pt = *St, ssl = []string, mp = map[string]int whose string
 \* contents "Aa" / "BB" collide under the derived 31-polynomial hash, and isl = []int, ip2 = *struct{A, B int},
 \* sp2 = []struct{A, B int}, mpi = map[int]int whose integer contents {1,0} / {0,31} collide; result kinds: all
-MemKinds == <<"int", "ssl", "str", "pt", "isl", "st", "mp", "ip2", "ar", "sp2", "mpi">>
+\* ap = [2]*St, sp = struct{P *St}, asp = [2]struct{P *St}: ==-comparable in Go, but Equal is structural (pointees)
+MemKinds == <<"int", "ssl", "str", "pt", "isl", "ap", "st", "mp", "ip2", "sp", "ar", "sp2", "mpi", "asp">>
 MemKindAt(rot, p) == MemKinds[((rot + p) % Len(MemKinds)) + 1]
 Classes(p) == IF p = 0 THEN {1} ELSE {1, 2, 3}
 \* class c as a tuple of per-parameter tokens: the classes differ in one position only
@@ -200,7 +210,7 @@ MemCfg(p, r, rot, dep) ==
   [p |-> p, r |-> r, rot |-> rot, kinds |-> <<kp, kr>>, dep |-> dep,
    A |-> [c \in Classes(p) |-> ClassArgs(p, c)],
    F |-> [c \in Classes(p) |-> Toks(kr, 10 * c)]]
-MemCfgs(x) == UNION {{MemCfg(p, r, rot, dep) : r \in 0..MaxAr, rot \in MemRots, dep \in Deps(p)} : p \in 0..MaxAr}
+MemCfgs(x) == UNION {{MemCfg(p, r, rot, dep) : r \in 0..MaxAr, rot \in (IF p = 0 THEN {0} ELSE MemRots), dep \in Deps(p)} : p \in 0..MaxAr}
 \* plain sequences up to MaxSeq calls; with re-entrancy (each call may nest two more) MaxSeqDep
 MemFreeEnv(c, st) ==
   IF Len(st.script) >= (IF c.dep = NoDep(c.p) THEN MaxSeq ELSE MaxSeqDep) THEN {}
@@ -217,7 +227,7 @@ Configs ==
     [] Fam = "plumb"    -> {c \in PlumbCfgs(0) : PlumbOK(c)}
     [] Fam = "fmap"     -> FmapCfgs(0)
     [] Fam = "fmapstr"  -> FmapStrCfgs(0)
-    [] Fam = "join"     -> JoinCfgs(0)
+    [] Fam = "join"     -> JoinCfgs(0) \cup JoinLenCfgs(0)
     [] Fam = "joinstr"  -> JoinStrCfgs(0)
     [] Fam = "mem"      -> MemCfgs(0)
 
